@@ -731,9 +731,13 @@ Lemma flat_map_vrows : forall olds, (forall f, In f olds -> wf_frag f) ->
 Proof.
   induction olds as [|f tl IH]; intro W; cbn [flat_map]; [reflexivity|].
   destruct (W f (or_introl eq_refl)) as (_ & H1 & H2 & H3 & _).
-  rewrite combine_app, combine_app, IH, vrows_columns by
-    (try (intros g Hg; apply W; right; exact Hg); unfold live; apply live_from_length; apply nlen_eq_length; lia).
-  reflexivity.
+  assert (L1 : length (live (f_del f) (cs_of f)) = length (live (f_del f) (us_of f)))
+    by (unfold live; apply live_from_length; apply nlen_eq_length; lia).
+  assert (L2 : length (live (f_del f) (frag_ids f)) = length (live (f_del f) (cs_of f)))
+    by (unfold live; apply live_from_length; apply nlen_eq_length; lia).
+  rewrite (combine_app _ _ _ _ L1).
+  rewrite combine_app by (rewrite combine_length, <- L1, Nat.min_id; exact L2).
+  rewrite IH by (intros g Hg; apply W; right; exact Hg). rewrite vrows_columns. reflexivity.
 Qed.
 
 Lemma combine_aligned {P A B C S} (g : P -> S) : forall (ps : list P) (la : list A) (lb : list B) (lc : list C) p a b c,
